@@ -388,8 +388,8 @@ func c20PlanFor(tier string) c20Plan {
 }
 
 const (
-	c20EnumAll  = 15 + 225 + 3375 + 50625             // histories of length <= 4
-	c20EnumUpTo = c20EnumAll + 759375 + 11390625      // ... of length <= 6
+	c20EnumAll  = 15 + 225 + 3375 + 50625        // histories of length <= 4
+	c20EnumUpTo = c20EnumAll + 759375 + 11390625 // ... of length <= 6
 )
 
 func enumHistory(idx int) []int { // idx-th history in length-then-lexicographic order
@@ -593,7 +593,8 @@ func c20Random(tier string, seed uint64, ci int) []h.Result {
 // ---------------------------------------------------------------------------- malformed cache files
 
 // wellFormed implements the documented grammar of the cache file independently:
-//   <pkgPath> TAB <exportFile> TAB <pkgHash> TAB <depPkgNum> NL  followed by depPkgNum lines  TAB <depPath> TAB <depHash> NL
+//
+//	<pkgPath> TAB <exportFile> TAB <pkgHash> TAB <depPkgNum> NL  followed by depPkgNum lines  TAB <depPath> TAB <depHash> NL
 func wellFormed(b string) bool {
 	lines := strings.Split(strings.TrimRight(b, "\n"), "\n")
 	for i := 0; i < len(lines); {
